@@ -40,7 +40,8 @@ STATEFUL = {"background", "standardize_shared_mapper", "standardize_mapper", "co
             "count_arrays", "pc_conditional_weight_array", "hierarchical_default_table", "nn_default_other_content", "symdel_k2_other_content_ndarray", "kdtree_ndarray_other_content",
             "kdtree_series_ncpu2_hamming", "kdtree", "kdtree_ncpu2", "kdtree_hamming_ncpu3", "kdtree_custom", "clustermap_default", "clustermap_cbar_kws", "clustermap_norm",
             "clustermap_single_chain_meta", "hierarchical_default", "tcrdist_default_kwargs", "tcrdist_both", "colors_hls_seeded",
-            "seqlogos", "subsample_seeded", "pcDelta_maxseqs_seeded", "downsample_seeded"}
+            "seqlogos", "subsample_seeded", "pcDelta_maxseqs_seeded", "downsample_seeded",
+            "tcr_metric_cdr_unknown_v_raises", "tcr_metric_alpha_cdr_unknown_v_raises", "tcr_metric_cdr", "clustermap_short_mapper_list"}
 
 
 def _fresh(history):
